@@ -26,6 +26,13 @@ CLAIMS["C08"] = ("MIR dataflow (key provenance at the index insert, iterator pro
     "rendered record must end at its newline (known finding F11: a NUL is written after it). Does not decide field rendering or layout detection.",
     "DESIGN.md §3 C08")
 
+CLAIMS["C05"] = ("MIR dataflow at every io::Read::read call site (taint of the returned count into slice bounds / loop conditions; buffer escape), decision-path tables of the (file type, archive kind) dispatch matches, provenance of the opened path",
+    "Static necessary-condition check: all 9 decoder read() sites honour short reads (count bounds the consumed slice, or fill loop, or buffer not "
+    "consumed), BlockReader::read_block maps Text and FixedStruct to one distinct reader per archive kind and every reader that drops earlier blocks "
+    "is marked streamed, and the evtx/journal readers open the temporary extraction when one exists. Does not decide decoder correctness for every "
+    "compressor parameter, tar member lookup, or anything about concrete bytes.",
+    "DESIGN.md §3 C05")
+
 NA_REASON = {}
 
 checks = []
